@@ -113,3 +113,64 @@ def replay_reader(args, outdir):
     clause = 'stops_early' if len(got) < len(exp) else ('reads_past_end' if len(got) > len(exp) else 'mates_mispaired')
     return dict(reproduced=True, signature='L2_lockstep_reader:%s' % clause,
                 what='FastqIterator over files of %d / %d lines (empty line at %d of file 1): %d records, expected %d' % (n1, n2, blank_at, len(got), len(exp)))
+
+
+def replay_per_cell(args, outdir):
+    """real gzip per-cell files (optionally pre-existing from an 'earlier run'), real loader / FastqHandle / HandleLimiter"""
+    import importlib, gzip as real_gzip
+    H = importlib.import_module('harness.C01')
+    import singlecellmultiomics.modularDemultiplexer.demultiplexingStrategyLoader as DSL
+    import singlecellmultiomics.fastqProcessing.fastqHandle as FHm
+    import singlecellmultiomics.fastqProcessing.fastqIterator as FI
+    import singlecellmultiomics.pyutils.handlelimiter as HL
+    import builtins, time as real_time
+    a = args['cex']
+    FHm.gzip, HL.gzip, HL.time = real_gzip, real_gzip, real_time
+    if 'open' in vars(HL):
+        del HL.open
+    DSL.fastqIterator = FI
+    name = 'NLAIII384C8U3'
+    strat = H.STRATS[name]
+    specs = [(0, a['b0'], a['i0'], True), (0, a['b1'], a['i1'], True)]
+    pairs = [S.make_pair(i, 0, 0, 2) for i in range(2)]
+    d = tempfile.mkdtemp(prefix='c01c', dir=os.environ.get('VERIF_SCRATCH') or None)
+    try:
+        paths = []
+        for m in range(2):
+            p = os.path.join(d, 'in_R%d.fastq.gz' % (m + 1))
+            with gzip.open(p, 'wt') as f:
+                for pr in pairs:
+                    f.write('%s\n%s\n%s\n%s\n' % pr[m])
+            paths.append(p)
+        cellfile = os.path.join(d, 'demux.%s.%s.%%s.fastq.gz' % (H.PARSER.index, name))
+        if a['stale']:
+            for mate in ('R1', 'R2'):
+                with gzip.open(cellfile % mate, 'wt') as f:
+                    f.write('@old 17099\nT\n+\nI\n')
+        H.PARSER.schedule = [(sp[1], sp[2], sp[3]) for sp in specs]
+        real_demux = strat.demultiplex
+
+        def demux(records, **kw):
+            H.PARSER.current = S.cy_of(records[0].header) - 17000
+            return real_demux(records, **kw)
+        strat.demultiplex = demux
+        try:
+            target = FHm.FastqHandle(os.path.join(d, 'demux'), pairedEnd=True, single_cell=True, maxHandles=a['maxh'])
+            with contextlib.redirect_stdout(io.StringIO()):
+                H.LOADER.demultiplex(paths, strategies=[strat], library='LIB', targetFile=target, rejectHandle=None)
+            target.close()
+        finally:
+            del strat.demultiplex
+        accepted = [17000 + i for i, sp in enumerate(specs) if sp[1] and sp[2]]
+        clause = None
+        ids = []
+        for mate in (('R1', 'R2') if accepted else ()):
+            txt = gzip.open(cellfile % mate, 'rt').read() if os.path.exists(cellfile % mate) else ''
+            ids = [S.cy_of(x[0]) for x in S.parse_sink(txt)]
+            if ids != accepted:
+                clause = 'per_cell_content'
+    finally:
+        shutil.rmtree(d, ignore_errors=True)
+    if clause is None:
+        return dict(reproduced=False)
+    return dict(reproduced=True, signature='L1_per_cell_output:%s' % clause, what='per-cell output: %s for %r (records found %r, expected %r)' % (clause, a, ids, accepted))
